@@ -2,14 +2,14 @@ HOOKS = {
     "guard": "OISF_LIBHTP_VERIF",
     "enable": "tools/vbuild.py compiles /repo/htp/*.c and /repo/htp/lzma/*.c with -DOISF_LIBHTP_VERIF (see /verif/Makefile, CDEFS)",
     "baseline_off_cmd": "make -C /repo -j16 check",
-    "source_commits": ["d6504d6", "a9d43c9", "89124d2"],
+    "source_commits": ["d6504d6", "a9d43c9", "89124d2", "790d2b8"],
     "add_only": True,
 }
 NOTES = ("All checks are generated-input search against an explicit oracle (rapidcheck generators with shrinking, exhaustive bounded "
          "enumeration, libFuzzer with in-target oracles, allocation-fault enumeration). ./check <id> rebuilds libhtp from /repo's working "
          "tree by content hash before every run. Known findings: /verif/known_findings.json. Design: /verif/DESIGN.md.")
 ENGINES = [
-    {"name": "rapidcheck", "path": "/verif/harness/rcx.hpp", "serves_properties": ["C02", "C03", "C04", "C06", "C10", "C11", "C12", "C13", "C14", "C15", "C16", "C17"], "kind_free_text": "property-based testing with integrated shrinking"},
+    {"name": "rapidcheck", "path": "/verif/harness/rcx.hpp", "serves_properties": ["C02", "C03", "C04", "C05", "C06", "C07", "C10", "C11", "C12", "C13", "C14", "C15", "C16", "C17"], "kind_free_text": "property-based testing with integrated shrinking"},
     {"name": "libFuzzer", "path": "/verif/fuzz/fuzz_stream.cpp", "serves_properties": ["C01", "C05", "C06", "C09", "C10"], "kind_free_text": "coverage-guided fuzzing, structure-aware decode, in-target oracles"},
     {"name": "enumerators", "path": "/verif/checks", "serves_properties": ["C12", "C13", "C15", "C17"], "kind_free_text": "exhaustive bounded enumeration, shortest first, sharded over 16 processes"},
 ]
@@ -34,6 +34,12 @@ META = {
         technique="coverage-guided fuzzing with an in-target accounting monitor (entity_len == bytes delivered, message_len >= entity_len, end-of-body marker before completion)",
         level_text=("Accounting invariants hold at every *_complete callback and at teardown for every generated history. Exploration."),
         design_ref="DESIGN.md section 3, C06", level_note=_FZ_NOTE),
+    "C07": dict(
+        engine="rapidcheck scenario generator + zlib/liblzma encoders as the reference",
+        technique="property-based testing: generated (payload x coding list x framing x limits) scenarios whose coded bytes are produced by zlib/liblzma in the harness; round-trip oracle (delivered == payload / the stage allowed by the layer limit) under every chunking (metamorphic), pass-through oracle for data zlib itself rejects, bomb inequality evaluated at every body callback",
+        level_text=("Hundreds (quick) / thousands (thorough) of coded bodies, each under all single cuts of the compressed stream, 1-byte delivery and random multi-cuts, are delivered exactly; "
+                    "bomb scenarios up to 40 MB expanded never exceed max(limit, 2048 x compressed) + 8192 at any callback. Exploration."),
+        design_ref="DESIGN.md section 3, C07", level_note="Trusted: zlib and liblzma as encoders, the scenario builder in checks/c07.cpp. D7 (restart loses earlier bytes) is a known finding attributed through trace point T3; D8 and D39 were repaired."),
     "C09": dict(
         engine="libFuzzer (fuzz_stream) + API contract monitor",
         technique="coverage-guided fuzzing with an in-target contract monitor evaluated after every data call (return code set, consumed counts, sticky ERROR/STOP, byte counters)",
